@@ -91,7 +91,7 @@ PROPS = {
         "timeout": 1500,
     },
     "C02": {
-        "lean_modules": ["JrpcProofs.Props.C02", "JrpcProofs.Lemmas.Corr", "JrpcProofs.Facts.Corr", "JrpcProofs.Facts.Frames", "JrpcProofs.Facts.OneShot", "JrpcProofs.Facts.Writers", "JrpcProofs.Facts.Call", "JrpcProofs.Facts.Interp"],
+        "lean_modules": ["JrpcProofs.Props.C02", "JrpcProofs.Props.Epoch", "JrpcProofs.Lemmas.Corr", "JrpcProofs.Facts.Corr", "JrpcProofs.Facts.Frames", "JrpcProofs.Facts.OneShot", "JrpcProofs.Facts.Writers", "JrpcProofs.Facts.Call", "JrpcProofs.Facts.Interp"],
         "assumptions": [
             "hooks only delay goroutines; two log entries written by different goroutines around one channel rendezvous may come in either order and are reconciled by the replayer (tau steps are counted in the evidence)",
             "ids of calls that are inside doRequest at the same time differ (id counter; int64 to float64 keys are injective below 2^53 calls)",
@@ -130,7 +130,7 @@ PROPS = {
         "timeout": 2400,
     },
     "C06": {
-        "lean_modules": ["JrpcProofs.Props.C06", "JrpcProofs.Facts.Cancel", "JrpcProofs.Facts.Corr", "JrpcProofs.Facts.Frames", "JrpcProofs.Facts.Stream"],
+        "lean_modules": ["JrpcProofs.Props.C06", "JrpcProofs.Props.Epoch", "JrpcProofs.Facts.Cancel", "JrpcProofs.Facts.Corr", "JrpcProofs.Facts.Frames", "JrpcProofs.Facts.Stream"],
         "assumptions": [
             "the peer is honest: it writes xrpc.cancel [id] only for a caller (or subscription) whose context was cancelled; the client side of that is tied by the regenerated skeletons of doRequest and handleCtxAsync",
             "over HTTP the guarantee is net/http's request-context cancellation; the library-side facts (hreq.WithContext(ctx), ctx := r.Context()) are observed by the HTTP scenario",
@@ -138,7 +138,7 @@ PROPS = {
         ],
     },
     "C16": {
-        "lean_modules": ["JrpcProofs.Props.C16", "JrpcProofs.Facts.Reverse", "JrpcProofs.Facts.Corr", "JrpcProofs.Facts.Dispatch", "JrpcProofs.Facts.Naming", "JrpcProofs.Facts.Cancel", "JrpcProofs.Facts.Frames"],
+        "lean_modules": ["JrpcProofs.Props.C16", "JrpcProofs.Props.Epoch", "JrpcProofs.Facts.Reverse", "JrpcProofs.Facts.Corr", "JrpcProofs.Facts.Dispatch", "JrpcProofs.Facts.Naming", "JrpcProofs.Facts.Cancel", "JrpcProofs.Facts.Frames"],
         "assumptions": [
             "context.WithValue / Value and handler-context derivation are Go's (modelled as: a handler serving connection c sees exactly the value stored for c)",
             "'gone' means the server noticed the loss (FIN, RST, client close): the server side configures no timeout, so a silent peer is never noticed there (that is C17's territory, client side only)",
